@@ -80,6 +80,8 @@ TABLES = {
     # keys b and c are absent from the FIRST record when written ragged (a reader must not learn the key set from record 0)
     "T3f": [["a", "int", [1, 2, 3]], ["b", "str", [None, "y", "z"]], ["c", "float", [None, 2.5, None]]],
     "T4": [["a", "int", [1, 2, 3]], ["b", "str", ["x", None, "z"]], ["d", "str", ["7", "8", "9"]], ["e", "bool", [True, False, True]]],
+    # JSON only: values that are objects / lists of objects whose own members are named like top-level keys
+    "T6": [["id", "int", [7, 8]], ["host", "obj", [{"id": 1, "name": "h"}, {"name": "g", "tags": [{"id": 3, "x": 1}]}]], ["name", "str", ["p", "q"]]],
     "T5": [["a", "int", [1, 2]], ["b", "str", ["x", "y"]], ["c", "float", [1.5, None]],
            ["t", "date", ["2020-02-29", "1970-01-01"]], ["e", "bool", [True, None]]],
 }
@@ -89,7 +91,7 @@ TABLE_ORDER = {"quick": ["T1", "T2", "T0", "T3", "T3f", "T3r", "T4"], "thorough"
 def files_for(fmt, tier):
     """File specs of one format, smallest first."""
     out = []
-    for t in TABLE_ORDER[tier]:
+    for t in TABLE_ORDER[tier] + (["T6"] if fmt == "json" else []):
         cols = TABLES[t]
         if fmt == "csv":
             out.append({"fmt": "csv", "cols": cols, "sep": ",", "header": True, "encoding": "utf-8"})
